@@ -151,7 +151,7 @@ Proof.
       (bind (ev1 st sc e) (fun v st1 => bindo (or_step m1 v) st1 (fun o => match o with Some r => (Ok r, st1) | None => ev_or m1 ev1 st1 sc (e' :: es') end))) in *.
     change (ev_or m2 ev2 st sc (e :: e' :: es')) with
       (bind (ev2 st sc e) (fun v st1 => bindo (or_step m2 v) st1 (fun o => match o with Some r => (Ok r, st1) | None => ev_or m2 ev2 st1 sc (e' :: es') end))).
-    step noop. try (step noop). dopt; [reflexivity | apply IH; assumption].
+    step noop. unfold or_step in *. simpl in *. destruct (is_nil (primary a)); [|reflexivity]. apply (IH s sc). exact K.
 Qed.
 
 Lemma ev_letstar_sim : forall bs es st sc, good (ev_letstar m1 ev1 st sc bs es) -> ev_letstar m2 ev2 st sc bs es = ev_letstar m1 ev1 st sc bs es.
@@ -264,8 +264,7 @@ Proof.
     + destruct (is_values v) eqn:Hv; simpl.
       * destruct (is_nil (primary v)) eqn:Hp; [congruence|]. intros _. destruct v; try discriminate. reflexivity.
       * intros _. destruct v; try discriminate; reflexivity.
-  - intros v; destruct m; simpl; try reflexivity; destruct (is_values v) eqn:Hv; try congruence.
-    intros _; destruct v; try discriminate; reflexivity.
+  - reflexivity.
   - intros v; destruct m; simpl; try reflexivity; destruct (is_values v) eqn:Hv; try congruence; intros _.
     destruct v; try discriminate; reflexivity.
   - destruct m; simpl; congruence.
